@@ -228,3 +228,24 @@ Definition tx_grouped_writer (oneofs : list (string * string)) (given : bool) (m
       (map (pb_canon oneofs) ys, match r with Exn e => Some e | Val _ => None end)
     end
   end.
+
+(* flat_stream_to_frames(statements, options): a generator of statements (here: the list), options given or guessed from the first *)
+Definition tx_flat_writer (oneofs : list (string * string)) (given : bool) (maxn maxp maxd : Z) (gen star : bool) (version : Z) (delimited nd : bool) (name : str)
+                          (frame_size logical : Z) (stmts : list gobj) : list (pbval str) * option exn :=
+  let opts :=
+    if given then
+      match LookupPreset___init__ maxn maxp maxd with
+      | Exn e => Exn e
+      | Val preset =>
+        match StreamParameters___init__ SN gen star version delimited nd name with
+        | Exn e => Exn e
+        | Val params => match SerializerOptions___init__ SN None frame_size logical params preset with Exn e => Exn e | Val o => Val (Some o) end
+        end
+      end
+    else Val None in
+  match opts with
+  | Exn e => ([], Some e)
+  | Val o =>
+    let '(r, _, ys) := flat_stream_to_frames SN stmts o in
+    (map (pb_canon oneofs) ys, match r with Exn e => Some e | Val _ => None end)
+  end.
